@@ -390,3 +390,84 @@ M('c16-range-suffix-zero-accepted', 'C16', 'R14', REQ, "                if first
 M('c16-range-suffix-unchecked', 'C16', 'R14', REQ, _SUFFIX, "                first_num, last_num = (-int(last), -1)\n")
 M('c16-range-suffix-refused', 'C16', 'R14', REQ, "                if first_num >= 0:\n", "                if first_num <= 0:\n")
 # negative controls verified by hand with --root (silent): see fixer report (wave 9)
+
+# ---------------------------------------------------- "refactoring + break": the behaviour-preserving extractions of the second preserving
+# wave (k2-c16-2: the sanitisation / containment block of StaticRoute.__call__ becomes StaticRoute._resolve_path; k2-c06-2: the trailing-slash
+# block of Request.__init__ becomes request_helpers._apply_trailing_slash_option) are read through -- plus a real mistake inside the helper
+_K2_HEAD = '''    def __call__(self, req: Request, resp: Response, **kw: Any) -> None:
+        """Resource responder for this route."""
+        assert not kw
+        if req.method == 'OPTIONS':
+            # it's likely a CORS request. Set the allow header to the appropriate value.
+            resp.set_header('Allow', 'GET')
+            resp.set_header('Content-Length', '0')
+            return
+
+        without_prefix = req.path[len(self._prefix) :]
+
+'''
+_K2_TAIL = '''        if '..' in file_path or not file_path.startswith(self._directory):
+            raise falcon.HTTPNotFound()
+
+        if self._fallback_filename is None:
+'''
+_K2_NEW_CALL = '''        return file_path
+
+    def __call__(self, req: Request, resp: Response, **kw: Any) -> None:
+        """Resource responder for this route."""
+        assert not kw
+        if req.method == 'OPTIONS':
+            resp.set_header('Allow', 'GET')
+            resp.set_header('Content-Length', '0')
+            return
+
+        file_path = self._resolve_path(req.path[len(self._prefix) :])
+
+        if self._fallback_filename is None:
+'''
+
+
+def _k2_resolve_path(*more, tail=_K2_TAIL[:_K2_TAIL.index('        if self._fallback_filename is None:')], call=_K2_NEW_CALL):
+    return [{'file': ST, 'old': _K2_HEAD, 'new': '    def _resolve_path(self, without_prefix: str) -> str:\n'},
+            {'file': ST, 'old': _K2_TAIL, 'new': tail + call}] + list(more)
+
+
+M2('c16-k2-resolve-path-chars-test-skipped-with-fallback', 'C16', 'R11', _k2_resolve_path(
+    {'file': ST, 'old': "            or self._DISALLOWED_CHARS_PATTERN.search(without_prefix)\n",
+     'new': "            or (self._fallback_filename is None and self._DISALLOWED_CHARS_PATTERN.search(without_prefix))\n"}))
+M2('c16-k2-resolve-path-returns-early-for-dotfiles', 'C16', None, _k2_resolve_path(
+    {'file': ST, 'old': "        # NOTE(kgriffs): Check surrounding whitespace and strip trailing\n",
+     'new': "        if without_prefix.startswith('.well-known/'):\n            return os.path.join(self._directory, without_prefix)\n"
+            "        # NOTE(kgriffs): Check surrounding whitespace and strip trailing\n"}))
+M2('c16-k2-resolve-path-drops-normalized-prefix-guard', 'C16', 'R1', _k2_resolve_path(
+    {'file': ST, 'old': "        if normalized.startswith(self._DISALLOWED_NORMALIZED_PREFIXES):\n            raise falcon.HTTPNotFound()\n\n", 'new': ''},
+    tail=''))
+M2('c16-k2-resolve-path-result-not-the-opened-path', 'C16', 'R1', _k2_resolve_path(
+    call=_K2_NEW_CALL.replace("        file_path = self._resolve_path(req.path[len(self._prefix) :])\n",
+                              "        remainder = req.path[len(self._prefix) :]\n        self._resolve_path(remainder)\n"
+                              "        file_path = os.path.join(self._directory, remainder)\n")))
+_K2_SLASH_OLD = '''        if (
+            self.options.strip_url_path_trailing_slash
+            and len(path) != 1
+            and path.endswith('/')
+        ):
+            self.path: str = path[:-1]
+        else:
+            self.path = path
+'''
+_K2_SLASH_NEW = '''        self.path: str = helpers._apply_trailing_slash_option(
+            path, self.options.strip_url_path_trailing_slash
+        )
+'''
+_K2_SLASH_ANCHOR = "# NOTE(kgriffs): Going forward we should privatize helpers, as done here. We\n"
+
+
+def _k2_slash_helper(body):
+    return [{'file': REQ, 'old': _K2_SLASH_OLD, 'new': _K2_SLASH_NEW},
+            {'file': 'falcon/request_helpers.py', 'old': _K2_SLASH_ANCHOR,
+             'new': 'def _apply_trailing_slash_option(path: str, strip_trailing_slash: bool) -> str:\n' + body + '\n\n' + _K2_SLASH_ANCHOR}]
+
+
+M2('c16-k2-slash-helper-drops-replacement-characters', 'C16', 'R11', _k2_slash_helper(
+    "    path = path.replace('\\ufffd', '')\n    if strip_trailing_slash and len(path) != 1 and path.endswith('/'):\n        return path[:-1]\n\n    return path\n"),
+    also=('C06',))
